@@ -53,6 +53,24 @@ def _has(p, spec) -> bool:
     return all(any(u(t) == txt and k == pol for t, k in p.tests) for txt, pol in spec.items())
 
 
+def _handle_with_count(v, count: str, base: str | None = None):
+    """v is a node handle rebuilt with output count `count`: replace(B, _num_out_ports=count[, _metadata=..]) or, written out,
+    Node(B.idx, <metadata>, count).  Returns the text of B (the handle / index source it was rebuilt from), None if v is something else."""
+    from ..tmpl import T, tmatch
+    if v is None:
+        return None
+    for t in (f"replace(E_b, _num_out_ports={count}, _metadata=ANY_)", f"replace(E_b, _num_out_ports={count})",
+              f"Node(E_b.idx, ANY_, {count})", f"Node(E_b.idx, _metadata=ANY_, _num_out_ports={count})"):
+        e = tmatch(v, T(t))
+        if e is not None and (base is None or e["E_b"] == base):
+            return e["E_b"]
+    for t in (f"Node(E_i, ANY_, {count})",):
+        e = tmatch(v, T(t))
+        if e is not None and base is None:
+            return e["E_i"]
+    return None
+
+
 def r2_counts(ctx) -> None:
     """stated over path summaries / canonical bodies: locals, temporaries, loop-vs-comprehension and helper extraction do not matter"""
     from ..rulekit import unold
@@ -63,8 +81,7 @@ def r2_counts(ctx) -> None:
     H = "hugr.hugr.base.Hugr"
     an = hugr.methods["_add_node"]
     ps = [p for p in ctx.paths(f"{H}._add_node") if p.kind != "raise"]
-    ok = bool(ps) and all(p.kind == "return" and tmatch(p.value, T("replace(ANY_, _num_out_ports=num_outs, _metadata=ANY_)")) is not None
-                          or p.kind == "return" and tmatch(p.value, T("replace(ANY_, _num_out_ports=num_outs)")) is not None for p in ps)
+    ok = bool(ps) and all(p.kind == "return" and _handle_with_count(p.value, "num_outs") is not None for p in ps)
     ctx.check(ok, "C16.R2", "Hugr._add_node: handle carries the requested count", file, an.lineno,
               "the handle returned for a new node must know the output count it was created with", an)
     pub = hugr.methods["add_node"]
@@ -72,37 +89,38 @@ def r2_counts(ctx) -> None:
     pa = [a.arg for a in pub.args.args]
     ok = bool(ps) and all(p.kind == "return" and tmatch(p.value, T(f"self._add_node({pa[1]}, ANY_, {pa[3]}, {pa[4]})")) is not None for p in ps)
     ctx.check(ok, "C16.R2", "Hugr.add_node: forwards num_outs", file, pub.lineno, "", pub)
-    up = hugr.methods["_update_port_count"]
-    ups = [p for p in ctx.paths(f"{H}._update_port_count") if p.kind != "raise"]
-    node_p = up.args.args[1].arg
-    new_h = f"replace({node_p}, _num_out_ports=num_outs)"
-    ok = bool(ups)
-    seen = set()
-    for p in ups:
-        changed = [k for t, k in p.tests if u(t) == "num_outs is not None"]
-        if not changed or p.kind != "return":
-            ok = False
-            continue
-        if not changed[0]:
-            ok = ok and p.value_text() == node_p
-            continue
-        ok = ok and unold(p.value) == new_h
-        st = p.find_effect("self[E_par].children[self[E_par].children.index(E_n)] = E_n")
-        has_par = [k for t, k in p.tests if isinstance(t, ast.Compare) and u(t).endswith(".parent is not None")]
-        if has_par and has_par[0]:
-            seen.add("child")
-            ok = ok and len(st) == 1 and unold(st[0][2]["E_n"]) == new_h
-        else:
-            seen.add("root")
-            ok = ok and bool(has_par) and not st
-    ctx.check(ok and seen == {"child", "root"}, "C16.R2", "Hugr._update_port_count: refreshed handle", file, up.lineno,
-              "changing a node's output count must return a refreshed handle and refresh the copy kept in the parent's child list", up,
-              found="; ".join(p.describe() for p in ups)[:300])
-    uo = hugr.methods["_update_node_outs"]
-    ps = ctx.paths(f"{H}._update_node_outs")
-    a = [x.arg for x in uo.args.args]
-    ok = bool(ps) and all(p.kind == "return" and p.value_text() == f"self._update_port_count({a[1]}, num_outs={a[2]})" for p in ps)
-    ctx.check(ok, "C16.R2", "Hugr._update_node_outs", file, uo.lineno, "", uo)
+    # the two count-updating entry points, each judged with the other seen through (which of them carries the implementation is free)
+    for mname, other, title in (("_update_port_count", "_update_node_outs", "Hugr._update_port_count: refreshed handle"),
+                                ("_update_node_outs", "_update_port_count", "Hugr._update_node_outs")):
+        up = hugr.methods[mname]
+        ups = [p for p in ctx.paths(f"{H}.{mname}", inline=(other,)) if p.kind != "raise"]
+        node_p = up.args.args[1].arg
+        ok = bool(ups)
+        seen = set()
+        for p in ups:
+            changed = [k for t, k in p.tests if u(t) == "num_outs is not None"]
+            if not changed or p.kind != "return":
+                ok = False
+                continue
+            if not changed[0]:
+                ok = ok and p.value_text() == node_p
+                continue
+            pv = ast.parse(unold(p.value), mode="eval").body if p.value is not None else None
+            ok = ok and _handle_with_count(pv, "num_outs", node_p) is not None
+            new_h = unold(p.value) if p.value is not None else ""
+            st = p.find_effect("self[E_par].children[self[E_par].children.index(E_n)] = E_n")
+            has_par = [k for t, k in p.tests if isinstance(t, ast.Compare) and u(t).endswith(".parent is not None")]
+            if has_par and has_par[0]:
+                seen.add("child")
+                ok = ok and len(st) == 1 and unold(st[0][2]["E_n"]) == new_h
+            else:
+                seen.add("root")
+                ok = ok and bool(has_par) and not st
+            # the stored count is the new one
+            ok = ok and len(p.find_effect(f"self[{node_p}]._num_outs = num_outs")) == 1
+        ctx.check(ok and seen == {"child", "root"}, "C16.R2", title, file, up.lineno,
+                  "changing a node's output count must store it, return a refreshed handle and refresh the copy kept in the parent's child list", up,
+                  found="; ".join(p.describe() for p in ups)[:300])
     ih = ctx.cfn(f"{H}.insert_hugr", accessors=True)
     adds = [c for c in calls_in(ih) if call_name(c) in ("add_node", "_add_node")]
     ok = len(adds) == 1 and kwarg(adds[0], "num_outs", 2) is not None and u(kwarg(adds[0], "num_outs", 2)).endswith("._num_outs")
@@ -116,7 +134,8 @@ def r2_counts(ctx) -> None:
     ps = [p for p in ctx.paths(f"{D}.add_op") if p.kind != "raise"]
     ok = bool(ps)
     for p in ps:
-        e = tmatch(p.value, T(f"replace(E_n, _num_out_ports={opp}.num_out)")) if p.kind == "return" else None
+        b_ = _handle_with_count(p.value, f"{opp}.num_out") if p.kind == "return" else None
+        e = {"E_n": b_} if b_ is not None else None
         w = p.find_effect("self._wire_up(E_n, E_args)", e) if e is not None else []
         ok = ok and e is not None and len(w) == 1 and "add_node(" in e["E_n"]
     ctx.check(ok, "C16.R2", "DfBase.add_op: handle carries op.num_out", dfile, ao.lineno,
